@@ -199,3 +199,17 @@ M("c17-initial-notification-to-all", "C17", "break", (V, '            self._noti
 M("c17-narrow-except", "C17", "break", (V, "        except Exception as exc:\n            self.log.exception(\n                \"client_subscribed from %r: %s failed\", source, subscription\n            )\n            raise sd.NakSubscription from exc", "        except sd.NakSubscription:\n            raise"))
 M("c17-only-last-event", "C17", "break", (V, "            msgbuf += hdr.build()", "            msgbuf = hdr.build()"))
 M("c17-session-key-mismatch", "C17,C08", "break", (V, "assign_outgoing(addr)", "assign_outgoing(endpoint)"))
+
+# ---------------------------------------------------------------- C03
+M("c03-enum-conversion-unguarded", "C03", "break", (H, "        try:\n            mt = SOMEIPMessageType(mt_b)\n        except ValueError as exc:\n            raise ParseError(\"bad someip message type {mt_b:#x}\") from exc", "        mt = SOMEIPMessageType(mt_b)"))
+M("c03-config-length-guard-1", "C03", "break", (H, "        if len(buf) < 2:\n            raise ParseError(\n                f\"SD config option with wrong payload length {len(buf)} < 2\"\n            )", "        if len(buf) < 1:\n            raise ParseError(\n                f\"SD config option with wrong payload length {len(buf)} < 2\"\n            )"))
+M("c03-unpack-guard-removed", "C03,C01", "break", (H, "    if len(buf) < fmt.size:\n        raise IncompleteReadError(\n            f\"can not parse {fmt.format!r}, got only {len(buf)} bytes\"\n        )\n", ""))
+M("c03-config-inner-guard", "C03", "break", (H, "            if len(b) < nextlen + 1:", "            if len(b) < nextlen:"))
+M("c03-loadbalancing-guard-removed", "C03", "break", (H, "        if len(buf) != 5:\n            raise ParseError(\n                f\"SD load balancing option with wrong payload length {len(buf)} != 5\"\n            )\n", ""))
+M("c03-sd-catches-parseerror-only", "C03", "break", (S, "        except (someip.header.ParseError, UnicodeDecodeError) as exc:", "        except someip.header.ParseError as exc:"))
+M("c03-datagram-catches-nothing", "C03", "break", (S, "        except someip.header.ParseError as exc:\n            self.log.error(\n                \"failed to parse SOME/IP datagram from %s: %r\",", "        except KeyError as exc:\n            self.log.error(\n                \"failed to parse SOME/IP datagram from %s: %r\","))
+M("c03-filter-disjunct-dropped", "C03", "break", (S, "            or someip_message.interface_version != someip.header.SD_INTERFACE_VERSION\n", ""))
+M("c03-state-before-filter", "C03,C07", "break", (S, "        if (\n            someip_message.service_id != someip.header.SD_SERVICE", "        self.session_storage.check_received(addr, multicast, False, someip_message.session_id)\n        if (\n            someip_message.service_id != someip.header.SD_SERVICE"))
+M("c03-unicast-flag-ignored", "C03", "break", (S, "        if not sdhdr.flag_unicast:", "        if False:"))
+M("c03-option-loop-no-progress", "C03", "break", (H, "            option, options_buffer = SOMEIPSDOption.parse(options_buffer)\n            options.append(option)", "            option, _unused = SOMEIPSDOption.parse(options_buffer)\n            options.append(option)"))
+M("c03-twin-guard-order", "C03,C01", "benign", (H, "    if len(buf) < fmt.size:\n        raise IncompleteReadError(", "    if not len(buf) >= fmt.size:\n        raise IncompleteReadError("))
